@@ -40,11 +40,17 @@ def one_point(args):
     from OpenPinch.classes.simple_heat_pump import SimpleHeatPumpCycle
     from CoolProp.CoolProp import PropsSI
     idx, fluid, Te, lift, sh, sc, eta, Q = args
+    optional = fluid.endswith("?")
+    fluid = fluid.rstrip("?")
     Tc = Te + lift
     eid = f"{fluid}|Te={Te}|Tc={Tc}|sh={sh}|sc={sc}|eta={eta}|Q={Q}"
     try:
         sets = []
         ref = None
+        # an object that stays alive while other cycle objects are created and solved at other points (a cascade of heat pumps
+        # holds several at once): what it reports afterwards must be what it reported right after its own solve
+        keep = SimpleHeatPumpCycle()
+        keep.solve(Te=Te, Tc=Tc, dT_sh=sh, dT_sc=sc, eta_comp=eta, refrigerant=fluid, ihx_gas_dt=0.0, Q_h_total=Q)
         for order in ORDERS:
             c = SimpleHeatPumpCycle()
             c.solve(Te=Te, Tc=Tc, dT_sh=sh, dT_sc=sc, eta_comp=eta, refrigerant=fluid, ihx_gas_dt=0.0, Q_h_total=Q)
@@ -78,16 +84,28 @@ def one_point(args):
                          hotT=[[t2(s.t_supply), t2(s.t_target)] for s in hot], coldT=[[t2(s.t_supply), t2(s.t_target)] for s in cold]))
         reuse = dict(Qc=f4(c2.Q_cond), Qe=f4(c2.Q_evap), W=f4(c2.work), h=[int(round(float(x))) for x in c2.Hs],
                      s=[int(round(float(x) * 1000)) for x in c2.Ss], p=[int(round(float(x) / 10)) for x in c2.Ps])
+        c3 = SimpleHeatPumpCycle()
+        c3.solve(Te=-3.0, Tc=33.0, dT_sh=4.0, dT_sc=2.0, eta_comp=0.65, refrigerant=other, ihx_gas_dt=0.0, Q_h_total=7.0 * Q)
+        c3.build_stream_collection(include_cond=True, include_evap=True)
+        col = keep.build_stream_collection(include_cond=True, include_evap=True)
+        hot = [s for s in col._streams.values() if s.name.startswith("Condenser")]
+        cold = [s for s in col._streams.values() if s.name.startswith("Evaporator")]
+        sets.append(dict(order="kept-alive:b", hot=[f4(s.heat_flow) for s in hot], cold=[f4(s.heat_flow) for s in cold],
+                         hotT=[[t2(s.t_supply), t2(s.t_target)] for s in hot], coldT=[[t2(s.t_supply), t2(s.t_target)] for s in cold]))
+        alive = dict(Qc=f4(keep.Q_cond), Qe=f4(keep.Q_evap), W=f4(keep.work), h=[int(round(float(x))) for x in keep.Hs],
+                     s=[int(round(float(x) * 1000)) for x in keep.Ss], p=[int(round(float(x) / 10)) for x in keep.Ps])
         c = ref
         psE = PropsSI("P", "T", Te + 273.15, "Q", 1.0, fluid)
         psC = PropsSI("P", "T", Tc + 273.15, "Q", 0.0, fluid)
         ev = dict(id=eid, Qc=f4(c.Q_cond), Qe=f4(c.Q_evap), W=f4(c.work), COPh=int(round(c.COP_h * 10000)), COPr=int(round(c.COP_r * 10000)),
                   h=[int(round(float(x))) for x in c.Hs], s=[int(round(float(x) * 1000)) for x in c.Ss],
-                  p=[int(round(float(x) / 10)) for x in c.Ps], psatE=int(round(psE / 10)), psatC=int(round(psC / 10)), sets=sets, reuse=reuse)
+                  p=[int(round(float(x) / 10)) for x in c.Ps], psatE=int(round(psE / 10)), psatC=int(round(psC / 10)), sets=sets, reuse=reuse, alive=alive)
         if max(abs(v) for v in ev["h"] + ev["s"] + ev["p"]) > 2_000_000_000:
             return dict(id=eid, skipped="state value exceeds 32 bits")
         return ev
     except Exception as e:
+        if optional:
+            return dict(id=eid, skipped="not solved: " + repr(e)[:80])
         return dict(id=eid, raises=repr(e)[:200])
 
 
@@ -103,6 +121,12 @@ def grid(tier, rnd):
                 for sh, sc in ((0.0, 0.0), (5.0, 3.0), (0.0, 8.0)):
                     for eta in ((0.7, 1.0) if tier == "quick" else (0.5, 0.7, 0.9, 1.0)):
                         pts.append((f, Te, lift, sh, sc, eta, rnd.choice([0.02, 1.0, 42.0, 750.0, 2.5e4])))     # any positive duty: from 20 W (in kW) to 25 MW
+    # regimes in which a saturation point lies outside the end states of a heat exchanger (found by a seeding sub-agent on the pinned
+    # tree, repaired in /repo 65f4079): throttle outlet already superheated (near-critical condensing of a dry fluid), compressor
+    # discharge wet or liquid (very dry fluids, no superheat, full efficiency)
+    for f, Te, lift, sh, sc, eta in (("R114", 15.0, 120.0, 20.0, 0.0, 0.55), ("R114", 15.0, 120.0, 20.0, 0.0, 0.7), ("D4", 250.0, 45.0, 0.0, 0.0, 1.0),
+                                     ("MM", 10.0, 210.0, 0.0, 0.0, 1.0), ("MDM", 100.0, 150.0, 0.0, 0.0, 1.0), ("n-Dodecane", 200.0, 150.0, 0.0, 0.0, 0.9)):
+        pts.append((f, Te, lift, sh, sc, eta, 1.0))
     # seeded random operating points over pure fluids: evaporating level anywhere between the triple point (+5 K, >= -40 C) and
     # 27 K below the critical temperature, lifts from 3 K, superheat / subcooling up to 20 / 15 K, efficiencies down to 0.3
     from CoolProp.CoolProp import PropsSI
@@ -114,20 +138,45 @@ def grid(tier, rnd):
         lift = round(rnd.uniform(3, min(80, hi - Te)), 1)
         pts.append((f, Te, lift, float(rnd.choice([0, 0, 2, 5, 10, 20])), float(rnd.choice([0, 0, 3, 8, 15])),
                     rnd.choice([0.3, 0.5, 0.7, 0.9, 1.0]), rnd.choice([0.02, 1.0, 42.0, 750.0, 2.5e4])))
+    # "all refrigerants known to the property library": every pure fluid CoolProp lists, evaporating level anywhere in the two-phase
+    # range, condensing level up to 8 K below the critical temperature (large lifts included).  A point the library refuses to
+    # solve (CoolProp's flash routines fail for some fluids / regions) is outside "every cycle the library solves": counted, no verdict
+    import CoolProp.CoolProp as CP
+    allf = sorted(CP.FluidsList())
+    for _ in range(150 if tier == "quick" else 4000):
+        f = rnd.choice(allf)
+        try:
+            tmin = max(PropsSI("Ttriple", f), PropsSI("Tmin", f)) - 273.15 + 5; tcr = PropsSI("Tcrit", f) - 273.15
+        except Exception:
+            continue
+        if tcr - 8 - tmin < 12:
+            continue
+        try:   # pseudo-pure blends (R410A, R404A, R507A, Air ...): dew and bubble pressure differ, "the saturation pressure" is undefined
+            tm = 0.5 * (tmin + tcr) + 273.15
+            if abs(PropsSI("P", "T", tm, "Q", 0.0, f) / PropsSI("P", "T", tm, "Q", 1.0, f) - 1.0) > 1e-9:
+                continue
+        except Exception:
+            continue
+        Te = round(rnd.uniform(tmin, tcr - 20), 1)
+        lift = round(rnd.uniform(3, tcr - 8 - Te), 1)
+        pts.append((f + "?", Te, lift, float(rnd.choice([0, 0, 5, 20])), float(rnd.choice([0, 0, 5])), rnd.choice([0.4, 0.7, 1.0]), rnd.choice([0.02, 1.0, 750.0])))
     return [(i,) + p for i, p in enumerate(pts)]
 
 
 def check(prop, tier, run: Run, replay_case=None):
     run.assumptions += ["refrigerant properties and saturation pressures come from CoolProp (the implementation's own source); the specification states the laws, it does not recompute properties",
                         "cycles without internal heat exchanger (ihx_gas_dt = 0); pure fluids only (for zeotropic blends such as R410A dew and bubble pressure differ and 'the saturation pressure' of a temperature is not defined by the statement)"]
-    r = _tlc(dict(HasTrace=False, MaxReq=5, EvapSharesMdot=False, BackendCached=False), invs=["C18_OrderIndependent", "C18_BackendIsRequested"])
+    r = _tlc(dict(HasTrace=False, MaxReq=5, EvapSharesMdot=False, BackendCached=False, SharedStates=False), invs=["C18_OrderIndependent", "C18_BackendIsRequested", "C18_OwnStatePoints"])
     run.add_tlc(r, "request-order machine")
     if r.violated:
         run.machinery_errors.append("spec/HeatPumpCycle.tla violates C18_OrderIndependent")
     if tier == "thorough":
-        r2 = _tlc(dict(HasTrace=False, MaxReq=5, EvapSharesMdot=True, BackendCached=False), invs=["C18_OrderIndependent"])
-        r3 = _tlc(dict(HasTrace=False, MaxReq=5, EvapSharesMdot=False, BackendCached=True), invs=["C18_BackendIsRequested"])
-        run.notes["mutant_models"] = {"EvapSharesMdot": r2.violated, "BackendCached": r3.violated}
+        r2 = _tlc(dict(HasTrace=False, MaxReq=5, EvapSharesMdot=True, BackendCached=False, SharedStates=False), invs=["C18_OrderIndependent"])
+        r3 = _tlc(dict(HasTrace=False, MaxReq=5, EvapSharesMdot=False, BackendCached=True, SharedStates=False), invs=["C18_BackendIsRequested"])
+        r4 = _tlc(dict(HasTrace=False, MaxReq=5, EvapSharesMdot=False, BackendCached=False, SharedStates=True), invs=["C18_OwnStatePoints"])
+        run.notes["mutant_models"] = {"EvapSharesMdot": r2.violated, "BackendCached": r3.violated, "SharedStates": r4.violated}
+        if not r4.violated:
+            run.machinery_errors.append("mutant model SharedStates not rejected")
         if not r2.violated:
             run.machinery_errors.append("mutant model EvapSharesMdot not rejected")
         if not r3.violated:
@@ -145,7 +194,7 @@ def check(prop, tier, run: Run, replay_case=None):
     try:
         tf = tmp / "hp.json"
         tf.write_text(json.dumps(good))
-        res = _tlc(dict(HasTrace=True, MaxReq=1, EvapSharesMdot=False, BackendCached=False), post="TraceAccepted", env={"TRACE_FILE": str(tf)})
+        res = _tlc(dict(HasTrace=True, MaxReq=1, EvapSharesMdot=False, BackendCached=False, SharedStates=False), post="TraceAccepted", env={"TRACE_FILE": str(tf)})
     finally:
         shutil.rmtree(tmp, ignore_errors=True)
     run.add_tlc(res, "trace")
@@ -163,6 +212,7 @@ def check(prop, tier, run: Run, replay_case=None):
     run.cov["exhaustive"] = False
     run.cov["distinct_nontrivial"] = sum(1 for e in good if e["sets"] and len(e["sets"][0]["hot"]) + len(e["sets"][0]["cold"]) >= 4)
     run.cov["samples"] = [dict(id=good[0]["id"], Qc=good[0]["Qc"], Qe=good[0]["Qe"], W=good[0]["W"], sets=good[0]["sets"][:2])] if good else [{"note": "no event"}]
-    run.notes["skipped"] = [e["id"] for e in events if "skipped" in e][:10]
+    run.notes["skipped"] = [e["id"] + " " + e["skipped"] for e in events if "skipped" in e][:10]
+    run.notes["not_solved_or_skipped"] = sum(1 for e in events if "skipped" in e)
     run.cov["rule"] = ("operating grid: fluids x evaporating level x lift x (superheat, subcooling) x isentropic efficiency x duty, each solved and queried in 8 request orders; "
                        "one trace event per operating point; non-trivial = the stream sets have at least four segments (de-superheating, condensation, sub-cooling, evaporation)")
